@@ -119,4 +119,21 @@ void h_SEQUENCE_uper_roundtrip(void) {
 	SEQUENCE_free(&T_td, st, ASFM_FREE_EVERYTHING);
 }
 
+/* C07: the output callback refuses one call while the encoder runs (scratch space pre-filled so that every octet is flushed
+ * through the callback): the failure is reported by the encoder or by the final flush, never swallowed */
+void h_SEQUENCE_encode_uper_cbfail(void) {
+	VF_BYTES(vals, 4); VF_SCALAR(int, has_b); VF_SCALAR(int, has_c); VF_SCALAR(long, fail_at);
+	__CPROVER_assume(fail_at >= 0 && fail_at <= 5);
+	setup();
+	struct T val; struct sv vb, vc; memset(&val, 0, sizeof(val));
+	val.a.v = vals[0]; vb.v = vals[1]; vc.v = vals[2]; val.e.v = vals[3];
+	val.b = has_b ? &vb : 0; val.c = has_c ? &vc : 0;
+	asn_per_outp_t po; memset(&po, 0, sizeof(po)); po.buffer = po.tmpspace + 31; po.nbits = 8; po.output = vf_cb;
+	vf_cb_fail_at = fail_at;
+	asn_enc_rval_t er = SEQUENCE_encode_uper(&T_td, 0, &val, &po);
+	VF_CANARY();
+	int fl = er.encoded == -1 ? -1 : per_put_aligned_flush(&po);
+	if(vf_cb_failed) __CPROVER_assert(er.encoded == -1 || fl != 0, "C07: a failing output callback is reported");
+}
+
 VF_NATIVE_MAIN
